@@ -5,6 +5,7 @@ the eager reference built by the same sequence of list operations (harness/oracl
 exercise each class alone; this search exercises what a stage does on top of ANOTHER derived dataset (a sort over a key
 list, a split of a slice whose keys were queried, a batch over a concatenation ...).
 Deterministic for a given seed (VERIF_SEED); the number of pipelines is the stated bound."""
+import os
 import random
 import warnings
 
@@ -56,6 +57,10 @@ def ops():
 
     def op_map(ds, r, rnd):
         return ds.map(_f), O.ref_map(r, _f)
+
+    def op_parmap(ds, r, rnd):
+        w = rnd.choice((1, 2))
+        return ds.map(_f, num_workers=w, buffer_size=rnd.choice((w, w + 2))), O.ref_map(r, _f)
 
     def op_slice(ds, r, rnd):
         if not r.idx:
@@ -418,3 +423,464 @@ def search_isolation(tier='quick', seed=0, count=None):
     gc.collect()
     shutil.rmtree(root, ignore_errors=True)
     return cases, fails
+
+
+# ------------------------------------------------------------------ seed determinism across compositions (C13)
+def search_determinism(tier='quick', seed=0, count=None, only=None):
+    """C13 across compositions: a random pipeline that contains seeded random stages (one-time shuffle, per-epoch reshuffle,
+    buffer-local shuffle, lazy apply of a shuffle) between deterministic ones is built several times from the same recipe:
+      * two builds yield identical orders in 3 epochs, whatever the global numpy state is set to in between,
+      * copy() of a fresh build yields the same epochs (skipped when the recipe uses one reshuffling object twice: F25),
+      * the build behind prefetch(1, b) and prefetch(2, b) yields the same epochs (the latter skipped when two live iterators
+        share one reshuffling object, i.e. zip of a reshuffle with a derivative of itself),
+      * copy(freeze=True) iterates in one fixed order and reports ordered=True; a pipeline with a per-epoch random stage
+        reports ordered=False."""
+    os.environ.setdefault('OMP_NUM_THREADS', '1')
+    os.environ.setdefault('MKL_NUM_THREADS', '1')
+    import numpy as np
+    import lazy_dataset
+    OPS = ops()
+    det_ops = ['map', 'slice', 'concat', 'tile', 'zip', 'batch', 'batch_unbatch', 'filter', 'items', 'intersperse', 'copy', 'touch_keys']
+    N = count or (150 if tier == 'quick' else 1500)
+    fails, cases = [], 0
+    warnings.simplefilter('ignore')
+    master = random.Random(9000 + seed)
+
+    def build(sub):
+        rnd = random.Random(sub)
+        n = rnd.randrange(0, 7)
+        keyed = rnd.random() < 0.5
+        vals = [10 * (i + 1) for i in range(n)]
+        if keyed:
+            keys = [chr(ord('a') + i) for i in range(n)]
+            ds, r = lazy_dataset.new(dict(zip(keys, vals))), Ref([('v', v) for v in vals], keys)
+        else:
+            ds, r = lazy_dataset.new(list(vals)), Ref([('v', v) for v in vals])
+        desc = ('dict[%d]' if keyed else 'list[%d]') % n
+        per_epoch = False
+        shared_reshuffle = False
+        unfreezable = False          # local shuffle / lazy apply: the statement promises a frozen order for a per-epoch *reshuffle* only
+        depth = rnd.randrange(1, 6)
+        applied = tries = 0
+        while applied < depth and tries < 15:
+            tries += 1
+            kind = rnd.random()
+            if kind < 0.45:
+                which = rnd.choice(('shuffle', 'reshuffle', 'local', 'apply'))
+                s_ = rnd.randrange(1000)
+                try:
+                    if which == 'shuffle':
+                        if not r.idx:
+                            continue
+                        ds = ds.shuffle(rng=np.random.RandomState(s_))
+                    elif which == 'reshuffle':
+                        if not r.len_:
+                            continue
+                        ds = ds.shuffle(reshuffle=True, rng=np.random.RandomState(s_))
+                        r = Ref(r.outs, r.keys, False, True, has_keys=False, has_items=r.has_items)
+                        per_epoch = True
+                    elif which == 'local':
+                        ds = ds.shuffle(reshuffle=True, buffer_size=rnd.randrange(1, 4), rng=np.random.RandomState(s_))
+                        r = Ref(r.outs, r.keys, False, r.len_, has_keys=False, has_items=r.has_items)
+                        per_epoch = unfreezable = True
+                    else:
+                        if not r.idx:
+                            continue
+                        g = np.random.RandomState(s_)
+                        if rnd.random() < 0.5:
+                            ds = ds.apply(lambda d, g=g: d.shuffle(rng=g), lazy=True)
+                        else:
+                            ds = ds.apply(lambda d, g=g: d.shuffle(reshuffle=True, rng=g), lazy=True)
+                        r = Ref(r.outs, r.keys, False, False, has_keys=False, has_items=r.has_items)
+                        per_epoch = True
+                except Exception:      # noqa
+                    continue
+                desc += '.%s(%d)' % (which, s_)
+                applied += 1
+                continue
+            name = rnd.choice(det_ops)
+            if name == 'tile' and per_epoch:
+                shared_reshuffle = shared_reshuffle or 'sequential'
+            if name == 'zip' and per_epoch:
+                shared_reshuffle = 'interleaved'          # two live iterators over one reshuffling object (one permutation buffer)
+            try:
+                res = OPS[name](ds, r, rnd)
+            except Exception:      # noqa
+                continue
+            if res is None:
+                continue
+            ds, r = res
+            desc += '.' + name
+            applied += 1
+        return ds, desc, per_epoch, shared_reshuffle, unfreezable
+
+    def epochs(ds, e=3):
+        out = []
+        for _ in range(e):
+            np.random.seed(random.randrange(10 ** 6))        # adversarial global state
+            out.append([O.norm(x) for x in ds])
+        return out
+    while cases < N:
+        sub = master.randrange(10 ** 9)
+        try:
+            ds_a, desc, per_epoch, shared, unfreezable = build(sub)
+            ea = epochs(ds_a)
+        except Exception:      # noqa  (pipelines that cannot be built / iterated belong to the conformance search)
+            continue
+        cases += 1
+
+        def check(what, got):
+            if got != ea:
+                fails.append({'scenario': desc + '; ' + what, 'mismatches': [{'clause': 'equal-seeds-equal-epochs', 'observed': repr(got)[:300], 'expected': repr(ea)[:300]}]})
+                return False
+            return True
+        try:
+            ok = check('a second identical build', epochs(build(sub)[0]))
+            if ok and not shared and only != 'prefetch':
+                ok = check('copy() of a fresh build', epochs(build(sub)[0].copy()))
+            if ok:
+                ds_p = build(sub)[0]
+                try:
+                    p1 = ds_p.prefetch(1, 2)
+                except Exception:      # noqa
+                    p1 = None
+                if p1 is not None:
+                    ok = check('the build behind prefetch(1, 2)', epochs(p1))
+            if ok and shared != 'interleaved':
+                ds_q = build(sub)[0]
+                try:
+                    p2 = ds_q.prefetch(2, 3)
+                    list(p2)
+                    p2 = build(sub)[0].prefetch(2, 3)
+                except Exception:      # noqa
+                    p2 = None
+                if p2 is not None:
+                    ok = check('the build behind prefetch(2, 3)', epochs(p2))
+            if ok and not unfreezable and only != 'prefetch':
+                orig = build(sub)[0]
+                fz = orig.copy(freeze=True)
+                f1 = epochs(fz, 1)[0]
+                epochs(orig, 2)                 # the original goes on reshuffling; the frozen copy must not follow it
+                f2 = epochs(fz, 1)[0]
+                if f1 != f2:
+                    fails.append({'scenario': desc + '; copy(freeze=True)', 'mismatches': [{'clause': 'frozen-stays-frozen', 'observed': repr((f1, f2))[:300], 'expected': 'one fixed order'}]})
+            if per_epoch and ea[0] != ea[1] and only != 'prefetch':
+                try:
+                    flag = build(sub)[0].ordered
+                except Exception:      # noqa
+                    flag = False
+                if flag:
+                    fails.append({'scenario': desc, 'mismatches': [{'clause': 'reshuffling-datasets-report-unordered', 'observed': 'ordered=True', 'expected': 'False'}]})
+        except BaseException as e:      # noqa
+            fails.append({'scenario': desc, 'mismatches': [{'clause': 'observation', 'observed': '%s: %s' % (type(e).__name__, str(e)[:160]), 'expected': 'observable'}]})
+        if len(fails) >= 3:
+            break
+    return cases, fails
+
+
+# ------------------------------------------------------------------ demand across compositions (C08)
+def search_demand(tier='quick', seed=0, count=None):
+    """C08 across compositions: a random pipeline of lazy combinators with an instrumented user function at every stage is built
+    next to a reference made of plain Python generators (which are demand-driven by construction) carrying the same instrumented
+    functions.  Checked: construction logs nothing; for every prefix length k of a fresh iteration the log of (stage, example)
+    applications EQUALS the reference's log, interleaving included (so: nothing early, nothing twice, source order); with a
+    prefetch(1, b) stage in the recipe the interleaving is scheduler-dependent, so per stage the log must be a prefix of the
+    full-epoch reference log of that stage, cover the demand of k results and stay within (b + 1) * (fragments per example
+    downstream) further results; ds[i] applies exactly what the reference's point evaluation applies."""
+    os.environ.setdefault('OMP_NUM_THREADS', '1')
+    os.environ.setdefault('MKL_NUM_THREADS', '1')
+    import time
+    from collections import Counter
+    import lazy_dataset
+    N = count or (150 if tier == 'quick' else 1500)
+    fails, cases = [], 0
+    warnings.simplefilter('ignore')
+    master = random.Random(4000 + seed)
+
+    def flat(x):
+        if isinstance(x, (list, tuple)):
+            out = []
+            for i in x:
+                out += flat(i)
+            return out
+        return [x]
+
+    class R(object):          # reference: gen() -> generator, get(i) or None, n or None
+        def __init__(self, gen, get=None, n=None, depth=0):
+            self.gen, self.get, self.n, self.depth = gen, get, n, depth
+
+    def build(sub):
+        rnd = random.Random(sub)
+        logs = {'real': [], 'ref': []}
+        stage = [0]
+
+        def fn_pair(kind):
+            s = stage[0]
+            stage[0] += 1
+
+            def mk(which):
+                if kind == 'map':
+                    def f(x):
+                        logs[which].append((s, tuple(flat(x))))
+                        return x
+                else:
+                    def f(x):
+                        logs[which].append((s, tuple(flat(x))))
+                        return (sum(flat(x)) + s) % 3 != 0
+                return f
+            return mk('real'), mk('ref')
+
+        def source(base):
+            n = rnd.randrange(0, 7) if rnd.random() < 0.7 else rnd.randrange(7, 14)     # longer ones make read-ahead visible
+            vals = [base + i for i in range(n)]
+            if rnd.random() < 0.5:
+                ds = lazy_dataset.new({'k%d_%d' % (base, i): v for i, v in enumerate(vals)})
+            else:
+                ds = lazy_dataset.new(list(vals))
+            r = R(lambda: iter(list(vals)), lambda i: vals[i], n)
+            f, g = fn_pair('map')
+            return ds.map(f), rmap(r, g), 'src[%d].map' % n
+
+        def rmap(r, g):
+            return R(lambda: (g(x) for x in r.gen()), (lambda i: g(r.get(i))) if r.get else None, r.n, r.depth)
+
+        def rconcat(rs):
+            def gen():
+                for r in rs:
+                    yield from r.gen()
+            idx = all(r.get for r in rs)
+            ln = all(r.n is not None for r in rs)
+
+            def get(i):
+                for r in rs:
+                    if i < r.n:
+                        return r.get(i)
+                    i -= r.n
+                raise IndexError(i)
+            return R(gen, get if idx else None, sum(r.n for r in rs) if ln else None, rs[0].depth)
+        ds, r, desc = source(0)
+        slack = None            # (b + 1) of the prefetch stage, multiplied by the fragments per example of later unbatch stages
+        unordered = [False]     # a multi-worker stage: applications of one stage may overtake each other
+        depth = rnd.randrange(1, 6)
+        applied = tries = 0
+        while applied < depth and tries < 20:
+            tries += 1
+            name = rnd.choice(('map', 'filter', 'batch', 'unbatch', 'slice', 'concat_self', 'concat_other', 'zip', 'tile', 'catch', 'items', 'prefetch', 'index_list',
+                               'prefetch_mt', 'parmap', 'batch_map'))
+            if name == 'map':
+                f, g = fn_pair('map')
+                ds, r = ds.map(f), rmap(r, g)
+            elif name == 'filter':
+                f, g = fn_pair('filter')
+                ds = ds.filter(f, lazy=True)
+                r = (lambda r, g: R(lambda: (x for x in r.gen() if g(x)), None, None, r.depth))(r, g)
+            elif name == 'batch':
+                b = rnd.randrange(1, 4)
+                dl = rnd.random() < 0.3
+                ds = ds.batch(b, drop_last=dl)
+
+                def mkb(r, b, dl):
+                    def gen():
+                        cur = []
+                        for x in r.gen():
+                            cur.append(x)
+                            if len(cur) == b:
+                                yield cur
+                                cur = []
+                        if cur and not dl:
+                            yield cur
+                    n = None if r.n is None else (r.n // b if dl else -(-r.n // b))
+                    get = (lambda j: [r.get(i) for i in range(j * b, min((j + 1) * b, r.n))]) if r.get else None
+                    return R(gen, get, n, r.depth + 1)
+                r = mkb(r, b, dl)
+                name = 'batch(%d%s)' % (b, ',drop_last' if dl else '')
+            elif name == 'unbatch':
+                if r.depth < 1:
+                    continue
+                ds = ds.unbatch()
+                r = (lambda r: R(lambda: (y for x in r.gen() for y in x), None, None, r.depth - 1))(r)
+                if slack is not None:
+                    slack *= 3
+            elif name in ('slice', 'index_list'):
+                if not r.get or not r.n:
+                    continue
+                if name == 'slice':
+                    sl = slice(rnd.choice((None, 0, 1, 2, -2)), rnd.choice((None, 1, 3, -1, 5)), rnd.choice((None, 1, 2, -1)))
+                    idx = list(range(r.n))[sl]
+                    ds = ds[sl]
+                    name = '[%s:%s:%s]' % (sl.start, sl.stop, sl.step)
+                else:
+                    idx = [rnd.randrange(r.n) for _ in range(rnd.randrange(0, 5))]
+                    ds = ds[list(idx)]
+                    name = '[%r]' % (idx,)
+                r = (lambda r, idx: R(lambda: (r.get(i) for i in idx), lambda j: r.get(idx[j]), len(idx), r.depth))(r, idx)
+            elif name == 'concat_self':
+                f, g = fn_pair('map')
+                ds = ds.concatenate(ds.map(f))
+                r = rconcat([r, rmap(r, g)])
+            elif name == 'concat_other':
+                if r.depth:
+                    continue
+                ods, orr, _ = source(100 * (stage[0] + 1))
+                ds = ds.concatenate(ods)
+                r = rconcat([r, orr])
+            elif name == 'tile':
+                if r.n is None:
+                    continue
+                ds = ds.tile(2)
+                r = rconcat([r, r])
+            elif name == 'zip':
+                if r.n is None or slack is not None:        # two concurrent producers: per-stage order is scheduler-dependent
+                    continue
+                f, g = fn_pair('map')
+                ds = ds.zip(ds.map(f))
+                r = (lambda r, r2: R(lambda: zip(r.gen(), r2.gen()), (lambda i: (r.get(i), r2.get(i))) if r.get else None, r.n, r.depth + 1))(r, rmap(r, g))
+            elif name == 'catch':
+                if not r.get:             # catch evaluates its input by index
+                    continue
+                ds = ds.catch()
+                r = (lambda r: R(lambda: (r.get(i) for i in range(r.n)), None, None, r.depth))(r)
+            elif name == 'items':
+                try:
+                    keys = list(ds.keys())
+                except Exception:      # noqa
+                    continue
+                ds = ds.items()
+                # keys are strings: keep them out of the logged ids by wrapping the value only
+                ds = ds.map(_second)
+                r = r
+                name = 'items().map(value)'
+            elif name == 'prefetch':
+                if slack is not None:
+                    continue
+                b = rnd.randrange(1, 4)
+                ds = ds.prefetch(1, b)
+                r = (lambda r: R(r.gen, None, r.n, r.depth))(r)
+                slack = b + 1
+                name = 'prefetch(1,%d)' % b
+            elif name == 'prefetch_mt':
+                if slack is not None or not r.get:
+                    continue
+                b = rnd.randrange(2, 5)
+                ds = ds.prefetch(2, b)
+                r = (lambda r: R(r.gen, None, r.n, r.depth))(r)
+                slack, unordered[0] = b + 2, True
+                name = 'prefetch(2,%d)' % b
+            elif name == 'parmap':
+                if slack is not None:
+                    continue
+                w = rnd.randrange(1, 3)
+                b = rnd.randrange(w, 5)
+                f, g = fn_pair('map')
+                ds = ds.map(f, num_workers=w, buffer_size=b)
+                r = (lambda r, g: R(lambda: (g(x) for x in r.gen()), None, r.n, r.depth))(r, g)
+                slack, unordered[0] = b + 2, w > 1
+                name = 'map(num_workers=%d,buffer_size=%d)' % (w, b)
+            elif name == 'batch_map':
+                if slack is not None or r.depth < 1:
+                    continue
+                w = rnd.randrange(0, 2)
+                b = rnd.randrange(1, 4)
+                f, g = fn_pair('map')
+                ds = ds.batch_map(f, num_workers=w, buffer_size=b)
+                r = (lambda r, g: R(lambda: ([g(y) for y in x] for x in r.gen()), (lambda i: [g(y) for y in r.get(i)]) if (r.get and not w) else None, r.n, r.depth))(r, g)
+                if w:
+                    slack = b + 2
+                name = 'batch_map(num_workers=%d,buffer_size=%d)' % (w, b)
+            desc += '.' + name
+            applied += 1
+        return ds, r, desc, logs, slack, unordered[0]
+
+    def per_stage(log):
+        out = {}
+        for s, ids in log:
+            out.setdefault(s, []).append(ids)
+        return out
+    while cases < N:
+        sub = master.randrange(10 ** 9)
+        try:
+            ds, r, desc, logs, slack, unordered = build(sub)
+        except Exception:      # noqa   (recipes the library refuses to build belong to the conformance search)
+            continue
+        if logs['real']:
+            fails.append({'scenario': 'constructing ' + desc, 'mismatches': [{'clause': 'construction', 'observed': 'applied %r' % logs['real'][:6], 'expected': 'no user function runs'}]})
+            break
+        del logs['ref'][:]
+        try:
+            full = list(r.gen())
+        except Exception:      # noqa
+            continue
+        full_log = list(logs['ref'])
+        cases += 1
+        bad = None
+        for k in range(0, len(full) + 1):
+            del logs['real'][:]
+            del logs['ref'][:]
+            it = r.gen()
+            want = [next(it) for _ in range(k)]
+            ref_log = list(logs['ref'])
+            try:
+                rit = iter(ds)
+                got = [next(rit) for _ in range(k)]
+            except BaseException as e:      # noqa
+                bad = ('prefix-values', '%s: %s' % (type(e).__name__, str(e)[:120]), repr(want)[:200])
+                break
+            if slack is not None:
+                time.sleep(0.02)         # let the producer thread run as far ahead as it is allowed to
+            real_log = list(logs['real'])
+            if hasattr(rit, 'close'):
+                rit.close()
+            if O.norm(got) != O.norm(want):
+                bad = ('prefix-values', repr(got)[:200], repr(want)[:200])
+                break
+            if slack is None:
+                if real_log != ref_log:
+                    bad = ('prefix-demand(k=%d)' % k, 'applied (stage, example) %r' % (real_log,), repr(ref_log))
+                    break
+            else:
+                del logs['ref'][:]
+                it = r.gen()
+                if k + slack >= len(full):
+                    list(it)                 # the producer may reach the end of the data (dropped tail, filtered-out examples)
+                else:
+                    for _ in range(k + slack):
+                        next(it)
+                hi, lo, al, fl = per_stage(logs['ref']), per_stage(ref_log), per_stage(real_log), per_stage(full_log)
+                for s in set(al) | set(lo):
+                    a = al.get(s, [])
+                    if unordered:
+                        ca, ch, cl = Counter(a), Counter(hi.get(s, [])), Counter(lo.get(s, []))
+                        if ca - ch:
+                            bad = ('read-ahead(k=%d): stage %d, at most %d results ahead, each application once' % (k, s, slack), repr(sorted(a)), 'within %r' % (sorted(hi.get(s, [])),))
+                        elif cl - ca:
+                            bad = ('prefix-demand(k=%d): stage %d' % (k, s), repr(sorted(a)), 'at least %r' % (sorted(lo.get(s, [])),))
+                    elif a != fl.get(s, [])[:len(a)]:
+                        bad = ('prefix-demand(k=%d): stage %d in source order, once' % (k, s), repr(a), 'a prefix of %r' % (fl.get(s, []),))
+                    elif len(a) < len(lo.get(s, [])):
+                        bad = ('prefix-demand(k=%d): stage %d' % (k, s), repr(a), 'at least %r' % (lo.get(s),))
+                    elif len(a) > len(hi.get(s, [])):
+                        bad = ('read-ahead(k=%d): stage %d, at most %d results ahead' % (k, s, slack), repr(a), 'at most %r' % (hi.get(s),))
+                if bad:
+                    break
+        if not bad and r.get and slack is None:
+            for i in range(r.n):
+                del logs['real'][:]
+                del logs['ref'][:]
+                want = r.get(i)
+                try:
+                    got = ds[i]
+                except BaseException as e:      # noqa
+                    bad = ('point-values [%d]' % i, '%s: %s' % (type(e).__name__, str(e)[:120]), repr(want)[:200])
+                    break
+                if O.norm(got) != O.norm(want) or sorted(logs['real']) != sorted(logs['ref']):
+                    bad = ('point-demand [%d]' % i, 'value %r, applied %r' % (got, sorted(logs['real'])), 'value %r, applied %r' % (want, sorted(logs['ref'])))
+                    break
+        if bad:
+            fails.append({'scenario': desc, 'mismatches': [{'clause': bad[0], 'observed': bad[1][:400], 'expected': bad[2][:400]}]})
+            if len(fails) >= 3:
+                break
+    return cases, fails
+
+
+def _second(kv):
+    return kv[1]
